@@ -27,6 +27,7 @@ import (
 	"github.com/yandex/pandora/core/aggregator"
 	"github.com/yandex/pandora/core/aggregator/netsample"
 	"github.com/yandex/pandora/core/coreutil"
+	"github.com/yandex/pandora/core/datasink"
 	"github.com/yandex/pandora/lib/ioutil2"
 	"pgregory.net/rapid"
 )
@@ -76,7 +77,20 @@ func genPhoutCase(t *rapid.T) PhoutCase {
 	maxM := rapid.SampledFrom([]int{3, 12, 40, 120}).Draw(t, "maxM")
 	pool := rapid.SliceOfN(rapid.Custom(genPhSample), 1, 4).Draw(t, "pool")
 	one := rapid.OneOf(rapid.SampledFrom(pool), rapid.Custom(genPhSample))
+	// discarded shoots (discard_overflow: an instance behind its schedule reports
+	// netsample.DiscardedShootSample() instead of shooting) among the guns' samples:
+	// 0 none, 1 any reporter discards now and then, 2 some reporters only discard (instances that
+	// lag behind) while the others shoot
+	discard := rapid.SampledFrom([]int{0, 0, 1, 1, 2}).Draw(t, "discardedShoots")
+	discarded := rapid.Just(PhSample{Discarded: true})
+	if discard == 1 {
+		one = rapid.OneOf(rapid.SampledFrom(pool), rapid.Custom(genPhSample), discarded)
+	}
 	for i := 0; i < g; i++ {
+		if discard == 2 && rapid.Bool().Draw(t, "onlyDiscards") {
+			c.Reporters = append(c.Reporters, rapid.SliceOfN(discarded, 0, maxM).Draw(t, "discards"))
+			continue
+		}
 		c.Reporters = append(c.Reporters, rapid.SliceOfN(one, 0, maxM).Draw(t, "reports"))
 	}
 	c.Rounds = rapid.SampledFrom([]int{1, 1, 2, 5, 20}).Draw(t, "rounds")
@@ -193,8 +207,29 @@ func checkPhout(c PhoutCase, o *vf.Obs) error {
 	o.ClassIf(len(want) < total, "duplicate_samples")
 	o.ClassIf(total >= 200, "reports_ge_200")
 	neg, big, odd, empty := false, false, false, false
+	nDisc, nShot := 0, 0
+	for _, rep := range c.Reporters {
+		d := 0
+		for _, s := range rep {
+			if s.Discarded {
+				d++
+			}
+		}
+		nDisc, nShot = nDisc+d*rounds, nShot+(len(rep)-d)*rounds
+	}
+	mixed := nDisc > 0 && nShot > 0
+	o.ClassIf(nDisc > 0, "discarded_shoots")
+	o.ClassIf(mixed, "discarded_among_shots")
+	o.ClassIf(mixed && len(c.Reporters) >= 2, "discarded_among_shots_reporters_ge_2")
+	o.ClassIf(mixed && c.IDs, "discarded_among_shots_ids_on")
+	o.ClassIf(mixed && nDisc >= 20 && nShot >= 20, "discarded_ge_20_among_shots_ge_20")
+	o.ClassIf(nDisc > 0 && nShot == 0, "discarded_only")
+	o.Note("discarded", nDisc)
 	for _, rep := range c.Reporters {
 		for _, s := range rep {
+			if s.Discarded {
+				continue
+			}
 			neg = neg || s.hasNegative()
 			big = big || s.hasBig()
 			odd = odd || strings.ContainsAny(s.Tag, " #|") || !isASCII(s.Tag)
@@ -236,6 +271,24 @@ type JS struct {
 	L    []int64           `json:"l"`
 	M    map[string]string `json:"m"`
 	B    bool              `json:"b"`
+	Pad  int               `json:"pad,omitempty"` // S is followed by this many padding characters
+}
+
+const padLetters = "abcdefghijklmnopqrstuvwxyzABCDEFGHIJKLMNOPQRSTUVWXYZ0123456789"
+
+// text is the string the sample carries: S plus Pad characters (a pattern that starts at a
+// place depending on Pad, so that lines of different samples differ in more than their length).
+func (j JS) text() string {
+	if j.Pad <= 0 {
+		return j.S
+	}
+	var b strings.Builder
+	b.Grow(len(j.S) + j.Pad)
+	b.WriteString(j.S)
+	for i := 0; i < j.Pad; i++ {
+		b.WriteByte(padLetters[(i+j.Pad)%len(padLetters)])
+	}
+	return b.String()
 }
 
 type recSub struct {
@@ -254,7 +307,7 @@ type recSample struct {
 }
 
 func (j JS) value() any {
-	rs := recSample{Tag: j.S, Num: j.N, Vals: j.L, Attr: j.M, Flag: j.B, Inner: recSub{Name: j.S, On: !j.B}}
+	rs := recSample{Tag: j.text(), Num: j.N, Vals: j.L, Attr: j.M, Flag: j.B, Inner: recSub{Name: j.S, On: !j.B}}
 	if j.B {
 		rs.Sub = &recSub{Name: j.S + "/sub", On: true}
 	}
@@ -262,7 +315,7 @@ func (j JS) value() any {
 	case 0:
 		return &rs
 	case 1:
-		m := map[string]any{"s": j.S, "n": j.N, "b": j.B}
+		m := map[string]any{"s": j.text(), "n": j.N, "b": j.B}
 		if j.L != nil {
 			m["l"] = j.L
 		}
@@ -271,11 +324,11 @@ func (j JS) value() any {
 		}
 		return m
 	case 2:
-		return j.S
+		return j.text()
 	case 3:
 		return j.N
 	case 4:
-		return []any{j.S, j.N, j.B, nil, j.L}
+		return []any{j.text(), j.N, j.B, nil, j.L}
 	default:
 		return rs
 	}
@@ -341,6 +394,17 @@ type EncCase struct {
 	RunDelayUs    int    `json:"run_started_after_us"`
 	GapUs         int    `json:"gap_between_reports_us"`
 	CancelDelayUs int    `json:"cancel_after_last_report_us"`
+
+	// Sink "" = the recording DataSink; "file" = the real file data sink (datasink.NewFile, what
+	// `sink: {type: file, path: ...}` gives) on a recording file system whose Write calls number
+	// SlowFrom .. SlowFrom+SlowWrites-1 (all from SlowFrom on when SlowWrites < 0) take WriteDelayUs.
+	Sink         string `json:"sink,omitempty"`
+	WriteDelayUs int    `json:"write_delay_us,omitempty"`
+	SlowFrom     int    `json:"slow_from_write,omitempty"`
+	SlowWrites   int    `json:"slow_writes,omitempty"`
+	// after every BurstLen reports a reporter pauses for BurstPauseUs (0 = no bursts)
+	BurstLen     int `json:"burst_len,omitempty"`
+	BurstPauseUs int `json:"burst_pause_us,omitempty"`
 }
 
 func genEncCase(t *rapid.T) EncCase {
@@ -361,6 +425,16 @@ func genEncCase(t *rapid.T) EncCase {
 	c.RunDelayUs = rapid.SampledFrom([]int{0, 0, 0, 200, 2000}).Draw(t, "runDelay")
 	c.GapUs = rapid.SampledFrom([]int{0, 0, 20, 200}).Draw(t, "gap")
 	c.CancelDelayUs = rapid.SampledFrom([]int{0, 0, 50, 500, 3000}).Draw(t, "cancelDelay")
+	// a quarter of the histories goes to the real file data sink, half of those on a file system
+	// that is slow for a few writes
+	if rapid.IntRange(0, 3).Draw(t, "fileSink") == 0 {
+		c.Sink = "file"
+		c.WriteDelayUs = rapid.SampledFrom([]int{0, 0, 500, 2000}).Draw(t, "writeDelay")
+		if c.WriteDelayUs > 0 {
+			c.SlowFrom = rapid.IntRange(0, 2).Draw(t, "slowFrom")
+			c.SlowWrites = rapid.IntRange(1, 4).Draw(t, "slowWrites")
+		}
+	}
 	return c
 }
 
@@ -392,6 +466,7 @@ type encStats struct {
 	total, lines, distinct int
 	dropped                int64
 	writes, bytes          int
+	maxWrite               int // largest single Write that reached the destination
 	escapedNewline         bool
 }
 
@@ -417,6 +492,8 @@ func checkEnc(c EncCase, o *vf.Obs) error {
 	o.ClassIf(total >= 200, "reports_ge_200")
 	o.ClassIf(c.FlushUs > 0 && c.FlushUs <= 3000, "flush_le_3ms")
 	o.ClassIf(st.escapedNewline, "escaped_newline")
+	o.ClassIf(c.Sink == "file", "sink_file")
+	o.ClassIf(c.Sink == "file" && c.WriteDelayUs > 0 && st.writes > c.SlowFrom, "sink_file_slow_write")
 	o.Note("reports", total)
 	o.Note("lines", st.lines)
 	o.Note("dropped", dropped)
@@ -429,6 +506,17 @@ func encRun(c EncCase, memo map[string]string) (st encStats, err error) {
 	rec := &recorder{}
 	econf := aggregator.DefaultEncoderAggregatorConfig()
 	econf.Sink = recSink{rec}
+	fileName := ""
+	switch c.Sink {
+	case "":
+	case "file":
+		fileName = pand.TempName("c06-enc", ".jsonl")
+		defer pand.Remove(fileName)
+		fs := &slowRecFs{Fs: pand.FS(), r: rec, delay: time.Duration(c.WriteDelayUs) * time.Microsecond, from: c.SlowFrom, count: c.SlowWrites}
+		econf.Sink = datasink.NewFile(fs, datasink.FileConfig{Path: fileName}) // what core/import registers as sink type `file`
+	default:
+		return st, fmt.Errorf("harness: unknown sink %q", c.Sink)
+	}
 	econf.FlushInterval = time.Duration(c.FlushUs) * time.Microsecond
 	econf.BufferSize = c.BufferBytes
 	econf.ReporterConfig = aggregator.ReporterConfig{SampleQueueSize: c.Queue}
@@ -484,10 +572,14 @@ func encRun(c EncCase, memo map[string]string) (st encStats, err error) {
 		for _, rep := range c.Reporters {
 			rep := rep
 			vf.GoErr(&wg, &sink, func() {
+				n := 0
 				for i := 0; i < rounds; i++ {
 					for _, s := range rep {
 						aggr.Report(s.value())
 						sleepUs(c.GapUs)
+						if n++; c.BurstLen > 0 && n%c.BurstLen == 0 {
+							sleepUs(c.BurstPauseUs)
+						}
 					}
 				}
 			})
@@ -521,6 +613,18 @@ func encRun(c EncCase, memo map[string]string) (st encStats, err error) {
 	}
 
 	data, _, writes, _, _ := rec.snapshot()
+	if fileName != "" {
+		onDisk, err := afero.ReadFile(pand.FS(), fileName)
+		if err != nil {
+			return st, fmt.Errorf("harness: reading back %s: %v", fileName, err)
+		}
+		if !bytes.Equal(onDisk, data) {
+			// the recorder copies p at the start of the file's Write, the file system takes it over a moment
+			// later in the same call: a difference means p was changed while Write had not returned yet
+			return st, fmt.Errorf("the result file (%d bytes) does not hold the bytes that were handed to its Write calls (%d bytes): a slice was modified while its Write was in progress",
+				len(onDisk), len(data))
+		}
+	}
 	if len(data) > 0 && data[len(data)-1] != '\n' {
 		return st, fmt.Errorf("%d reports, %d dropped: output of %d bytes does not end with a newline (last line incomplete)", total, dropped, len(data))
 	}
@@ -560,7 +664,7 @@ func encRun(c EncCase, memo map[string]string) (st encStats, err error) {
 		}
 	}
 
-	st = encStats{total: total, lines: len(keys), distinct: len(want), dropped: dropped, writes: writes, bytes: len(data),
+	st = encStats{total: total, lines: len(keys), distinct: len(want), dropped: dropped, writes: writes, bytes: len(data), maxWrite: rec.largestWrite(),
 		escapedNewline: bytes.Contains(data, []byte(`\n`))}
 	return st, nil
 }
